@@ -33,6 +33,23 @@ type rewriter struct {
 	atomicStmts map[*ast.ExprStmt]bool
 }
 
+// typeExpr spells the type of an expression as seen from the rewritten package.
+func (r *rewriter) typeExpr(e ast.Expr) ast.Expr {
+	t := r.info.TypeOf(e)
+	if t == nil {
+		return nil
+	}
+	if _, isTuple := t.(*types.Tuple); isTuple {
+		return nil
+	}
+	text := types.TypeString(t, func(p *types.Package) string { return p.Name() })
+	x, err := parser.ParseExpr(text)
+	if err != nil {
+		return nil
+	}
+	return x
+}
+
 // isAtomicOp reports whether the call is a function of sync/atomic or a method of one of its types.
 func (r *rewriter) isAtomicOp(call *ast.CallExpr) bool {
 	if r.info == nil {
@@ -207,8 +224,12 @@ func Rewrite(src []byte, info *types.Info, fset *token.FileSet, file *ast.File, 
 			if r.isAtomicOp(n) {
 				if es, ok := c.Parent().(*ast.ExprStmt); ok && es.X == ast.Expr(n) {
 					r.atomicStmts[es] = true
+				} else if rt := r.typeExpr(n); rt != nil {
+					lit := &ast.FuncLit{Type: &ast.FuncType{Params: &ast.FieldList{}, Results: &ast.FieldList{List: []*ast.Field{{Type: rt}}}},
+						Body: &ast.BlockStmt{List: []ast.Stmt{&ast.ReturnStmt{Results: []ast.Expr{n}}}}}
+					c.Replace(&ast.CallExpr{Fun: sel("sched", "Step"), Args: []ast.Expr{ast.NewIdent("S"), lit}})
 				} else {
-					c.Replace(&ast.CallExpr{Fun: sel("sched", "Step"), Args: []ast.Expr{ast.NewIdent("S"), n}})
+					r.decline("operation of sync/atomic whose result type cannot be spelled")
 				}
 				return true
 			}
@@ -242,7 +263,7 @@ func Rewrite(src []byte, info *types.Info, fset *token.FileSet, file *ast.File, 
 			}
 		case *ast.ExprStmt:
 			if r.atomicStmts[n] {
-				c.Replace(&ast.BlockStmt{List: []ast.Stmt{n, &ast.ExprStmt{X: method(ast.NewIdent("S"), "Shared")}}})
+				c.Replace(&ast.BlockStmt{List: []ast.Stmt{&ast.ExprStmt{X: method(ast.NewIdent("S"), "Shared")}, n}})
 				return true
 			}
 			if ue, ok := n.X.(*ast.UnaryExpr); ok && ue.Op == token.ARROW {
